@@ -234,6 +234,7 @@ type State struct {
 	rets    []Term
 	dead    bool
 	cells   map[types.Object]Term
+	havocTok string // identifies the last frame-less call this state went through
 }
 
 func (s *State) clone() *State {
@@ -265,6 +266,7 @@ func (s *State) clone() *State {
 		n.cells[k] = v
 	}
 	n.dead = s.dead
+	n.havocTok = s.havocTok
 	return n
 }
 
@@ -316,6 +318,7 @@ type VC struct {
 	pure        int
 	quiet       int
 	usedAnchors map[string]bool
+	lazyHeaps map[string]Term
 }
 
 func (vc *VC) declare(name, sort string) {
